@@ -57,7 +57,7 @@ def _chunk(arg):
     import logging
 
     logging.getLogger("sqlglot").setLevel(logging.CRITICAL)
-    from lib.guard import time_limit
+    from lib.guard import HardTimeout, time_limit
 
     items, dbs = arg
     ducks = [relq.Duck(db) for db in dbs]
@@ -67,7 +67,7 @@ def _chunk(arg):
         try:
             with time_limit(60):
                 texts = rule_texts(sql)
-        except Exception as e:
+        except (Exception, HardTimeout) as e:
             out.append({"skip": f"rule_texts: {type(e).__name__}: {e}", "sql": sql})
             continue
         errors = [t for t in texts if t[1] is None]
